@@ -381,6 +381,44 @@ func runOutParamNil(m *model.Model, s *ob.Set) {
 			s.Note(R, "(*Decimal).Float/z/zero-sign", m.Pos(fn.Pos()), "no negation of the destination on the zero branch (the sign is set some other way; not decided)")
 		}
 	}
+	// ---- Float: a destination handed in keeps its rounding mode (Float64/Float32 rely on a
+	// nearest-even destination of their own); only the allocation made for a nil z takes x's mode
+	if fn := m.TryLookup("(*Decimal).Float"); fn != nil && len(fn.Params) >= 2 {
+		z := fn.Params[1]
+		n, bad := 0, ""
+		mayBeParam := func(v ssa.Value) bool {
+			if v == ssa.Value(z) {
+				return true
+			}
+			if ph, ok := v.(*ssa.Phi); ok {
+				for _, e := range ph.Edges {
+					if e == ssa.Value(z) {
+						return true
+					}
+				}
+			}
+			return false
+		}
+		for _, b := range fn.Blocks {
+			for _, in := range b.Instrs {
+				c, ok := in.(*ssa.Call)
+				if !ok || len(c.Call.Args) == 0 {
+					continue
+				}
+				cal := model.Unthunk(c.Call.StaticCallee())
+				if cal == nil || cal.Name() != "SetMode" || cal.Pkg == nil || cal.Pkg.Pkg.Path() != "math/big" {
+					continue
+				}
+				n++
+				if mayBeParam(c.Call.Args[0]) {
+					bad = m.InstrPos(in) + ": the rounding mode of a destination the caller handed in is overwritten with x's: Float64 and Float32 convert through a destination of their own that must round to nearest even, whatever mode x carries"
+				}
+			}
+		}
+		if n > 0 {
+			s.Check(bad == "", R, "(*Decimal).Float/z/mode", m.Pos(fn.Pos()), fmt.Sprintf("%d SetMode call(s), only on the destination allocated for a nil z", n), bad)
+		}
+	}
 	// ---- Float: precision 0
 	if fn := m.TryLookup("(*Decimal).Float"); fn != nil && len(fn.Params) >= 2 {
 		live := m.Live(fn)
